@@ -82,24 +82,24 @@ theorem selectBest_ne_panic (mm k : Nat) (refP t : Array Nat) (code : UInt64) (t
 /-- **The encoder loop is total for every well-behaved supplier.** -/
 theorem encLoop_ne_none (S : UInt64 → List Nat) (mm : Nat) (hmm : lzHashingStep ≤ mm) (refP : Array Nat)
     (refLen : Nat) (t : Array Nat) (hS : SupOK S refP (keyLen mm))
-    (i pred npl : Nat) (toks : List Tok) (esz : Nat) (xprev : Option UInt64) :
-    encLoop S mm hmm refP refLen t i pred npl toks esz xprev ≠ none := by
+    (i pred npl : Nat) (toks : List Tok) (xprev : Option UInt64) :
+    encLoop S mm hmm refP refLen t i pred npl toks xprev ≠ none := by
   have hk : 1 ≤ keyLen mm := by unfold keyLen; omega
-  fun_induction encLoop S mm hmm refP refLen t i pred npl toks esz xprev with
-  | case1 i pred npl toks esz xprev hlt hx =>
+  fun_induction encLoop S mm hmm refP refLen t i pred npl toks xprev with
+  | case1 i pred npl toks xprev hlt hx =>
     exact absurd hx (nextCode_ne_oob _ _ _ _ _ hk (by omega))
-  | case2 i pred npl toks esz xprev hlt hx hn ih => exact ih
-  | case3 i pred npl toks esz xprev hlt hx hn hc =>
+  | case2 i pred npl toks xprev hlt hx hn ih => exact ih
+  | case3 i pred npl toks xprev hlt hx hn hc =>
     rw [Array.getElem?_eq_getElem (by omega)] at hc; cases hc
-  | case4 i pred npl toks esz xprev hlt hx hn c hc ih => exact ih
-  | case5 i pred npl toks esz xprev hlt code hx hf =>
+  | case4 i pred npl toks xprev hlt hx hn c hc ih => exact ih
+  | case5 i pred npl toks xprev hlt code hx hf =>
     exact absurd hf (selectBest_ne_panic _ _ _ _ _ _ _ _ _ _ (hS code))
-  | case6 i pred npl toks esz xprev hlt code hx hf hc =>
+  | case6 i pred npl toks xprev hlt code hx hf hc =>
     rw [Array.getElem?_eq_getElem (by omega)] at hc; cases hc
-  | case7 i pred npl toks esz xprev hlt code hx hf c hc ih => exact ih
-  | case8 i pred npl toks esz xprev hlt code hx mpos bck fwd hf i' pred' toks' esz' total amp tok toks'' ih =>
+  | case7 i pred npl toks xprev hlt code hx hf c hc ih => exact ih
+  | case8 i pred npl toks xprev hlt code hx mpos bck fwd hf i' pred' toks' total amp tok toks'' ih =>
     exact ih
-  | case9 i pred npl toks esz xprev hlt => simp
+  | case9 i pred npl toks xprev hlt => simp
 
 /-! ### the table only stores positions that leave room for a k-mer -/
 
@@ -185,8 +185,8 @@ theorem encodeExact_isSome (mm : Nat) (ref tgt : List Nat) (hmm : lzHashingStep 
   rw [dif_pos hmm]
   split
   · exact ⟨_, rfl⟩
-  · cases hl : encLoop (exactSupplier mm (padRef mm ref)) mm hmm (padRef mm ref) ref.length tgt.toArray 0 0 0 [] 0 none with
-    | none => exact absurd hl (encLoop_ne_none _ mm hmm _ _ _ (exactSupplier_ok mm _) _ _ _ _ _ _)
+  · cases hl : encLoop (exactSupplier mm (padRef mm ref)) mm hmm (padRef mm ref) ref.length tgt.toArray 0 0 0 [] none with
+    | none => exact absurd hl (encLoop_ne_none _ mm hmm _ _ _ (exactSupplier_ok mm _) _ _ _ _ _)
     | some res => exact ⟨_, rfl⟩
 
 end Ragc.Model.LzDiff
